@@ -1,5 +1,6 @@
 import Mdsort.Proofs.Header
 import Mdsort.Model.Eval
+import Mdsort.Proofs.Captures
 
 /-!
 # C08 - rewriting a message preserves everything it is not meant to change
@@ -18,9 +19,10 @@ empty line, CRLF line ends (the separator line `\r` is not empty), a header line
 nor a continuation, and a body that starts with an empty line (findings F16a-d; examples below).
 `Spec.read` removes the blanks after the colon, so "same value" is blind to their number
 (`message_write` normalises them to one space).  `Proofs.SetOk` (value without newline / NUL / leading
-blank, name without colon / white space / NUL) is a hypothesis on the settings that NOTHING in this
-development discharges for the `label` action, whose value contains the RFC 2047-DECODED existing `X-Label`
-of the message: `C08_rewrite_preserves_false`, `C08_label_value_from_message_breaks_rewrite`.
+blank, name without colon / white space / NUL) is a hypothesis on the settings.  For the `label` action - whose
+value contains the RFC 2047-DECODED existing `X-Label` of the message - it is discharged by
+`C08_label_value_safe` / `C08_label_rewrite_preserves` (after /repo 71eba6c; before it the decoded newline was
+written back).  For values built from captures it cannot be: `C08_capture_newline_breaks_rewrite`.
 -/
 
 namespace Mdsort.Props
@@ -90,45 +92,252 @@ example : ¬ Spec.WF (ofString "A: 1\r\n\r\nx\r\n") ∧ ¬ Spec.WF (ofString "A:
     ¬ Spec.WF [65, 58, 32, 0, 10, 10, 120] := by
   unfold Spec.WF; decide +kernel
 
-/-! ### `SetOk` is needed, and message content can violate it (audit au2)
+/-! ### The value `label` computes satisfies `SetOk` (after /repo 71eba6c)
 
-`match_interpolate` builds the value of `label` from the existing `X-Label` field as `message_get_header`
-returns it, i.e. unfolded and RFC 2047-DECODED (`Model.matchInterpolate`, case `.label`).  A Q-encoded word can
-hold `=0A`: the decoded value then contains newlines, it is written back verbatim by `message_write`, and the
-header block ends inside it.  Reproduced on the real binary (design-notes/audit-C07-C12.md): the rest of the
-value and every later field become body text, exit status 0. -/
+`match_interpolate` builds the value of `label` from the existing `X-Label` fields as `message_get_header` returns
+them, i.e. unfolded and RFC 2047-DECODED (`Model.matchInterpolate`, case `.label`).  A Q-encoded word can hold `=0A`:
+before 71eba6c the decoded newline was written back and the header block ended inside the value (found by audit au2,
+reproduced on the real binary).  Since 71eba6c every `\n` and `\r` of an existing value is copied as a space
+(`Model.labelSafe`).  Below: the hypothesis `SetOk` of `C08_rewrite_preserves_partial` is DISCHARGED for the value the
+label action computes, for every message, under a condition on the configured strings only - except for its third
+clause (no leading blank), which a message can still falsify and whose effect is stated exactly. -/
 
-/-- A well-formed message whose only field is `X-Label: =?utf-8?Q?a=0A=0AINJECTED?=`. -/
+def C08_xlabel : Bytes := ofString "X-Label"
+
+/-- The existing labels as `match_interpolate` copies them (71eba6c): every occurrence of `X-Label`, unfolded and
+RFC 2047-decoded, `\n` / `\r` replaced by a space, joined by one space. -/
+def C08_existingLabels (M : Msg) : Bytes :=
+  match getHeader M C08_xlabel with
+  | none => []
+  | some ls => ((ls.map labelSafe).intersperse [32]).flatten
+
+/-- The condition on the CONFIGURED strings of a `label` action: no `\` and no `$` (so the string is its own
+interpolation: no back-reference, no macro), no newline, no leading blank. -/
+def C08_LabelCfgOk (ss : List Bytes) : Prop :=
+  ∀ s ∈ ss, Proofs.Plain s ∧ (10 : UInt8) ∉ s ∧ ∀ c, s.head? = some c → isblank c = false
+
+theorem c08_labelSafe_no_nl (v : Bytes) : (10 : UInt8) ∉ labelSafe v := by
+  unfold labelSafe
+  intro h
+  obtain ⟨c, _, hc⟩ := List.mem_map.1 h
+  split at hc
+  · cases hc
+  · rename_i hn
+    subst hc
+    simp at hn
+
+theorem c08_mem_flatten_intersperse {α} (sep : List α) : ∀ (l : List (List α)) (x : α),
+    x ∈ (l.intersperse sep).flatten → x ∈ sep ∨ ∃ a ∈ l, x ∈ a
+  | [], x, h => by simp at h
+  | [a], x, h => by
+    simp only [List.intersperse_singleton, List.flatten_cons, List.flatten_nil, List.append_nil] at h
+    exact .inr ⟨a, by simp, h⟩
+  | a :: b :: r, x, h => by
+    simp only [List.intersperse_cons_cons, List.flatten_cons, List.mem_append] at h
+    rcases h with h | h | h
+    · exact .inr ⟨a, by simp, h⟩
+    · exact .inl h
+    · rcases c08_mem_flatten_intersperse sep (b :: r) x h with h | ⟨c, hc, hx⟩
+      · exact .inl h
+      · exact .inr ⟨c, by simp [hc], hx⟩
+
+theorem c08_existing_no_nl (M : Msg) : (10 : UInt8) ∉ C08_existingLabels M := by
+  unfold C08_existingLabels
+  split
+  · simp
+  · rename_i ls _
+    intro h
+    rcases c08_mem_flatten_intersperse _ _ _ h with h | ⟨a, ha, hx⟩
+    · simp at h
+    · obtain ⟨v, _, rfl⟩ := List.mem_map.1 ha
+      exact c08_labelSafe_no_nl v hx
+
+/-- The loop over the configured strings: with `C08_LabelCfgOk` every interpolation succeeds and returns the string. -/
+theorem c08_add_cfgOk (before : MatchList) (macros : Option (List (Bytes × Bytes))) (ss : List Bytes) (buf : Bytes)
+    (hcfg : C08_LabelCfgOk ss) (hb : (10 : UInt8) ∉ buf) :
+    ∃ r, matchInterpolate.add macros before ss buf = some r ∧ (10 : UInt8) ∉ r ∧
+      (buf ≠ [] → r.head? = buf.head?) ∧
+      (buf = [] → ∀ c, r.head? = some c → isblank c = false) := by
+  induction ss generalizing buf with
+  | nil => exact ⟨buf, rfl, hb, fun _ => rfl, fun h c hc => by subst h; cases hc⟩
+  | cons s ss ih =>
+    obtain ⟨hp, hn, hh⟩ := hcfg s (by simp)
+    have hcfg2 : C08_LabelCfgOk ss := fun t ht => hcfg t (by simp [ht])
+    unfold matchInterpolate.add
+    rw [Proofs.interpolate_plain before macros s hp]
+    by_cases hbe : buf = []
+    · subst hbe
+      obtain ⟨r, h1, h2, h3, h4⟩ := ih ([] ++ s) hcfg2 (by simpa using hn)
+      refine ⟨r, by simpa using h1, h2, fun h => absurd rfl h, fun _ c hc => ?_⟩
+      by_cases hs : s = []
+      · subst hs; exact h4 rfl c hc
+      · have := h3 (by simpa using hs)
+        rw [this] at hc
+        exact hh c (by simpa using hc)
+    · have hne : buf.isEmpty = false := by cases buf with | nil => exact absurd rfl hbe | cons _ _ => rfl
+      obtain ⟨r, h1, h2, h3, _⟩ := ih (buf ++ [32] ++ s) hcfg2 (by
+        intro h
+        simp only [List.mem_append, List.mem_singleton] at h
+        rcases h with (h | h) | h
+        · exact hb h
+        · cases h
+        · exact hn h)
+      refine ⟨r, by simpa [hne] using h1, h2, fun _ => ?_, fun h => absurd h hbe⟩
+      rw [h3 (by simp)]
+      cases buf with
+      | nil => exact absurd rfl hbe
+      | cons x xs => rfl
+
+theorem c08_cstr_head (l : Bytes) (c : UInt8) (h : (cstr l).head? = some c) : l.head? = some c := by
+  cases l with
+  | nil => simp [cstr] at h
+  | cons x r =>
+    unfold cstr at h
+    rw [List.takeWhile_cons] at h
+    split at h
+    · simpa using h
+    · cases h
+
+theorem c08_cstr_sub (l : Bytes) : ∀ c ∈ cstr l, c ∈ l := fun _ h => (List.takeWhile_sublist _).subset h
+
+/-- **What `label` sets, for EVERY message** (`msgs mh.part` is any parsed message or part - no hypothesis on it):
+under the condition on the CONFIGURED strings, `match_interpolate` succeeds and sets `X-Label` to a value `v` that
+contains no newline and no NUL; and `v` begins with a blank only if the (sanitised, decoded) existing label text
+does - which a message can still bring about (`X-Label: =?utf-8?Q?_a?=`, or an encoded leading newline, now a
+space). -/
+theorem C08_label_value_safe (macros : Option (List (Bytes × Bytes))) (ml : MatchList) (i : Nat) (mh : Match)
+    (msgs : Nat → Msg) (hty : mh.ty = .label) (hcfg : C08_LabelCfgOk mh.strings) :
+    ∃ v, matchInterpolate macros ml i mh msgs = some (mh, some (mh.part, setHeader (msgs mh.part) C08_xlabel v)) ∧
+      (∀ c ∈ v, c ≠ 10 ∧ c ≠ 0) ∧
+      (∀ c, v.head? = some c → isblank c = true → (C08_existingLabels (msgs mh.part)).head? = some c) := by
+  obtain ⟨r, h1, h2, h3, h4⟩ := c08_add_cfgOk (ml.take i) macros mh.strings (C08_existingLabels (msgs mh.part)) hcfg
+    (c08_existing_no_nl _)
+  refine ⟨cstr r, ?_, fun c hc => ⟨fun e => h2 (e ▸ c08_cstr_sub r c hc), cstr_no_nul r c hc⟩, fun c hc hb => ?_⟩
+  · unfold matchInterpolate
+    simp only [hty]
+    generalize hx : matchInterpolate.add _ _ _ _ = x
+    have hxr : x = some r := hx.symm.trans h1
+    subst hxr
+    rfl
+  · have hr := c08_cstr_head r c hc
+    by_cases he : C08_existingLabels (msgs mh.part) = []
+    · have := h4 he c hr
+      rw [this] at hb; cases hb
+    · rw [← h3 he]; exact hr
+
+/-- **`label` preserves everything else.**  For every well-formed message, every `label` entry whose configured strings
+satisfy `C08_LabelCfgOk`, whatever the match list and the macros: the entry is interpolated, the value `v` it sets
+satisfies the first two clauses of `SetOk` unconditionally, and - provided the existing label text does not begin with a
+blank (`hhead`: the first `X-Label` field, decoded, does not start with SP, TAB, CR or LF) - all of `SetOk`, so that
+`C08_rewrite_preserves_partial` applies: the file `message_write` produces is accepted by `Spec.rewriteOk`.
+When `hhead` fails nothing is lost either, but this is only evaluated, not proved in general
+(`C08_label_leading_blank_witness`: the file then reads `X-Label` with the leading blanks removed, every other field and
+the body as before); the general proof needs `Proofs.ValOk` (Proofs/HeaderReparse.lean) widened to values with leading
+blanks, through `fields_lines`, `write_read` and `chain_rewriteOk`. -/
+theorem C08_label_rewrite_preserves (m : Bytes) (hwf : Spec.WF m) (macros : Option (List (Bytes × Bytes)))
+    (ml : MatchList) (i : Nat) (mh : Match) (hty : mh.ty = .label) (hcfg : C08_LabelCfgOk mh.strings)
+    (hhead : ∀ c, (C08_existingLabels (parseMessage m)).head? = some c → isblank c = false) :
+    ∃ v, matchInterpolate macros ml i mh (fun _ => parseMessage m) =
+        some (mh, some (mh.part, setHeader (parseMessage m) C08_xlabel v)) ∧
+      Proofs.SetOk (C08_xlabel, v) ∧
+      Spec.rewriteOk m [(C08_xlabel, v)] (messageWrite (setHeader (parseMessage m) C08_xlabel v)).1 = true := by
+  obtain ⟨v, h1, h2, h3⟩ := C08_label_value_safe macros ml i mh (fun _ => parseMessage m) hty hcfg
+  have hset : Proofs.SetOk (C08_xlabel, v) := by
+    refine ⟨(by decide +kernel : ∀ c ∈ C08_xlabel, c ≠ 58 ∧ isspace c = false ∧ c ≠ 0), h2, fun c hc => ?_⟩
+    cases hb : isblank c with
+    | false => rfl
+    | true => have := hhead c (h3 c hc hb); rw [this] at hb; cases hb
+  refine ⟨v, h1, hset, ?_⟩
+  have := C08_rewrite_preserves_partial m [(C08_xlabel, v)] hwf (by intro kv hkv; simp at hkv; subst hkv; exact hset)
+  simpa [Proofs.applySets] using this
+
+/-- The formerly hostile message: `X-Label: =?utf-8?Q?a=0A=0AINJECTED?=`. -/
 def C08_hostile : Bytes := ofString "X-Label: =?utf-8?Q?a=0A=0AINJECTED?=\n\nbody\n"
 
 /-- The match-list entry of `label "x"`. -/
 def C08_labelEntry : Match := { ty := .label, lno := 1, part := 0, strings := [ofString "x"] }
 
-/-- The value `label "x"` sets on `C08_hostile`. -/
-def C08_hostileValue : Bytes := ofString "a\n\nINJECTED x"
-
 theorem c08_hostile_wf : Spec.WF C08_hostile := by unfold Spec.WF; decide +kernel
 
-/-- **Witness (model = real binary).**  On the well-formed `C08_hostile`, `label "x"` (1) writes the file
-`X-Label: a\n\nINJECTED x\n\nbody\n`; (2) that is `message_set_header` with the value `a\n\nINJECTED x`,
-which is not `SetOk`; (3) `Spec.rewriteOk` rejects the result; (4) the body a reader sees afterwards is
-`INJECTED x\n\nbody\n`, not `body\n`. -/
-theorem C08_label_value_from_message_breaks_rewrite :
+/-- Non-vacuity of `C08_label_rewrite_preserves` on it: the hypotheses hold (`C08_LabelCfgOk ["x"]`, the existing text
+`a  INJECTED` does not start with a blank), and the file written is `X-Label: a  INJECTED x` + the untouched body. -/
+example : C08_LabelCfgOk C08_labelEntry.strings ∧
+    C08_existingLabels (parseMessage C08_hostile) = ofString "a  INJECTED" ∧
     (matchInterpolate (some []) [{ ty := .mtch, lno := 1, part := 0 }, C08_labelEntry] 1 C08_labelEntry
         (fun _ => parseMessage C08_hostile)).map (fun r => r.2.map fun p => (messageWrite p.2).1) =
-      some (some (ofString "X-Label: a\n\nINJECTED x\n\nbody\n")) ∧
-    setHeader (parseMessage C08_hostile) (ofString "X-Label") C08_hostileValue =
-      Proofs.applySets (parseMessage C08_hostile) [(ofString "X-Label", C08_hostileValue)] ∧
-    Spec.rewriteOk C08_hostile [(ofString "X-Label", C08_hostileValue)]
-      (messageWrite (Proofs.applySets (parseMessage C08_hostile) [(ofString "X-Label", C08_hostileValue)])).1 = false ∧
-    Spec.body (ofString "X-Label: a\n\nINJECTED x\n\nbody\n") = ofString "INJECTED x\n\nbody\n" ∧
-    Spec.body C08_hostile = ofString "body\n" := by
+      some (some (ofString "X-Label: a  INJECTED x\n\nbody\n")) := by
+  refine ⟨?_, by decide +kernel, by decide +kernel⟩
+  intro s hs
+  simp only [C08_labelEntry, List.mem_singleton] at hs
+  subst hs
+  exact ⟨by decide +kernel, by decide +kernel, by
+    rw [show (ofString "x").head? = some 120 by decide +kernel]; intro c h; cases h; decide⟩
+
+example : ∃ v, Spec.rewriteOk C08_hostile [(C08_xlabel, v)]
+    (messageWrite (setHeader (parseMessage C08_hostile) C08_xlabel v)).1 = true := by
+  obtain ⟨v, _, _, h⟩ := C08_label_rewrite_preserves C08_hostile c08_hostile_wf (some [])
+    [{ ty := .mtch, lno := 1, part := 0 }, C08_labelEntry] 1 C08_labelEntry rfl
+    (by intro s hs
+        simp only [C08_labelEntry, List.mem_singleton] at hs
+        subst hs
+        exact ⟨by decide +kernel, by decide +kernel, by
+          rw [show (ofString "x").head? = some 120 by decide +kernel]; intro c h; cases h; decide⟩)
+    (by rw [show C08_existingLabels (parseMessage C08_hostile) = ofString "a  INJECTED" by decide +kernel,
+          show (ofString "a  INJECTED").head? = some 97 by decide +kernel]
+        intro c h; cases h; decide)
+  exact ⟨v, h⟩
+
+/-- **The leading blank, evaluated.**  `X-Label: =?utf-8?Q?_a?=` decodes to ` a`; `label "x"` sets ` a x` (not `SetOk`:
+leading blank) and writes `X-Label:  a x`.  A reader of that file sees the value `a x`: `Spec.rewriteOk` accepts the
+file for the setting `a x` and rejects it for ` a x`; the body and (here absent) other fields are untouched. -/
+theorem C08_label_leading_blank_witness :
+    (matchInterpolate (some []) [{ ty := .mtch, lno := 1, part := 0 }, C08_labelEntry] 1 C08_labelEntry
+        (fun _ => parseMessage (ofString "X-Label: =?utf-8?Q?_a?=\n\nbody\n"))).map
+        (fun r => r.2.map fun p => (messageWrite p.2).1) =
+      some (some (ofString "X-Label:  a x\n\nbody\n")) ∧
+    Spec.rewriteOk (ofString "X-Label: =?utf-8?Q?_a?=\n\nbody\n") [(C08_xlabel, ofString "a x")]
+      (ofString "X-Label:  a x\n\nbody\n") = true ∧
+    Spec.rewriteOk (ofString "X-Label: =?utf-8?Q?_a?=\n\nbody\n") [(C08_xlabel, ofString " a x")]
+      (ofString "X-Label:  a x\n\nbody\n") = false := by
+  decide +kernel
+
+/-! ### What still prevents the full statement
+
+`C08_rewrite_preserves` quantifies over ARBITRARY settings and stays false: a value with a newline breaks the header
+block, and two sources of such values remain after 71eba6c.
+(1) The configuration: a string literal may contain a newline (`add-header "K" "a<newline>b"`); not message content.
+(2) Captures: `add-header "K" "\1"` and `label "\1"` insert captured text verbatim, and a capture CAN contain a
+newline although every pattern is compiled with `REG_NEWLINE`: `.` and a non-matching list `[^x]` never match a newline,
+but a matching list (`[[:space:]]`) and a literal newline in the pattern do.  On the real binary (098cbec), message
+`Subject: =?utf-8?Q?a=0A=0Ab?=`: `match header "Subject" /(a[[:space:]]+b)/ add-header "X-Copy" "\1"` writes
+`X-Copy: a`, an empty line, `b` - header block broken, exit 0; `/(a[^x]+b)/` and `/(a.+b)/` do not match; a body
+pattern `/(line1[[:space:]]line2)/` does the same.  The model agrees (`C08_capture_newline_breaks_rewrite`). -/
+
+def C08_captureMsg : Bytes := ofString "Subject: =?utf-8?Q?a=0A=0Ab?=\n\nbody\n"
+
+/-- The match list after `match header "Subject" /(a[[:space:]]+b)/` matched the decoded value `a\n\nb`. -/
+def C08_captureBefore : MatchList :=
+  [{ ty := .mtch, lno := 1, part := 0 },
+   { ty := .header, lno := 1, part := 0, subs := [⟨ofString "a\n\nb", some (0, 4)⟩, ⟨ofString "a\n\nb", some (0, 4)⟩] }]
+
+/-- `add-header "Subject" "\1"` (replacing: one table entry, so that the kernel can evaluate the sort). -/
+def C08_addEntry : Match := { ty := .addHeader, lno := 1, part := 0, hkey := ofString "Subject", hval := ofString "\\1" }
+
+/-- Witness (model = real binary, with `X-Copy` there): the decoded `Subject` is `a\n\nb`; with that text as capture
+`add-header "Subject" "\1"` writes `Subject: a\n\nb\n\nbody\n`, which `Spec.rewriteOk` rejects. -/
+theorem C08_capture_newline_breaks_rewrite :
+    getHeader (parseMessage C08_captureMsg) (ofString "Subject") = some [ofString "a\n\nb"] ∧
+    (matchInterpolate (some []) (C08_captureBefore ++ [C08_addEntry]) 2 C08_addEntry (fun _ => parseMessage C08_captureMsg)).map
+      (fun r => r.2.map fun p => (messageWrite p.2).1) =
+      some (some (ofString "Subject: a\n\nb\n\nbody\n")) ∧
+    Spec.rewriteOk C08_captureMsg [(ofString "Subject", ofString "a\n\nb")]
+      (messageWrite (Proofs.applySets (parseMessage C08_captureMsg) [(ofString "Subject", ofString "a\n\nb")])).1 = false := by
   decide +kernel
 
 theorem C08_rewrite_preserves_false : ¬ C08_rewrite_preserves := by
   intro h
-  have h1 := h C08_hostile [(ofString "X-Label", C08_hostileValue)] c08_hostile_wf
-  rw [C08_label_value_from_message_breaks_rewrite.2.2.1] at h1
+  have h1 := h C08_captureMsg [(ofString "Subject", ofString "a\n\nb")] (by unfold Spec.WF; decide +kernel)
+  rw [C08_capture_newline_breaks_rewrite.2.2] at h1
   cases h1
 
 /-- A copy without header settings (move across file systems, exec stdin of a part)
